@@ -24,7 +24,7 @@ if os.path.exists(rp):
 def applies(path):
     return subprocess.run(["git", "-C", "/repo", "apply", "--check", path], capture_output=True).returncode == 0
 
-for rnd, inc in (("1", "_incoming"), ("2", "_incoming2")):
+for rnd, inc in (("1", "_incoming"), ("2", "_incoming2"), ("3", "_incoming3"), ("4", "_incoming4")):
     base = os.path.join(S, inc)
     if not os.path.isdir(base):
         continue
@@ -33,7 +33,7 @@ for rnd, inc in (("1", "_incoming"), ("2", "_incoming2")):
             src = os.path.join(base, p, "change%s.diff" % i)
             if not os.path.exists(src):
                 continue
-            idx = i if rnd == "1" else str(int(i) + 2)
+            idx = str(int(i) + 2 * (int(rnd) - 1))
             name = "%s-%s" % (p, idx)
             d = os.path.join(S, name)
             os.makedirs(d, exist_ok=True)
